@@ -202,7 +202,7 @@ theorem run_determined_by_selected (f : σ → α → Step σ α) (sel : α → 
 
 /-- `ToCSV`: values whose context forbids the conversion, histograms of dimension ≥ 3 and data without
 `rows()` pass -/
-theorem toCSV_passes : Passes (toCSVStep (σ := σ)) toCSVSel := by
+theorem toCSV_passes (cfg : CsvCfg) : Passes (toCSVStep (σ := σ) cfg) toCSVSel := by
   intro s v h
   unfold toCSVSel at h
   unfold toCSVStep
@@ -250,8 +250,8 @@ theorem iterateBins_passes (sb : BinKind → Bool) : Passes (iterateBinsStep (σ
   cases hd : v.data <;> simp_all
 
 /-- `MapBins`: non-histograms and histograms whose bins `select_bins` rejects pass -/
-theorem mapBins_passes (sb : BinKind → Bool) (inner : Item → CellRes) :
-    Passes (mapBinsStep (σ := σ) sb inner) (mapBinsSel sb) := by
+theorem mapBins_passes (sb : BinKind → Bool) (inner : Item → CellRes) (dc : Bool) :
+    Passes (mapBinsStep (σ := σ) sb inner dc) (mapBinsSel sb) := by
   intro s v h
   unfold mapBinsSel at h
   unfold mapBinsStep
@@ -283,11 +283,12 @@ theorem mapGroup_passes (inner : σ → List Item → Step σ Item) : Passes (ma
 /-! ### the law for each element's `run` -/
 
 /-- `ToCSV.run(interleave(A, B)) = interleave(ToCSV.run(A), B)` -/
-theorem toCSV_interleave (p : List Bool) (A B : List Item) (s : σ) (hpat : IsPattern p A B)
+theorem toCSV_interleave (cfg : CsvCfg) (p : List Bool) (A B : List Item) (s : σ) (hpat : IsPattern p A B)
     (hB : ∀ b ∈ B, toCSVSel b = false) :
-    toCSVRun s (merge p A B) =
-      ⟨mergeBlocks (toCSVRun s A).err.isSome p (toCSVRun s A).blocks B, (toCSVRun s A).st, (toCSVRun s A).err⟩ :=
-  interleave_law _ _ toCSV_passes p A B s hpat hB
+    toCSVRun cfg s (merge p A B) =
+      ⟨mergeBlocks (toCSVRun cfg s A).err.isSome p (toCSVRun cfg s A).blocks B, (toCSVRun cfg s A).st,
+        (toCSVRun cfg s A).err⟩ :=
+  interleave_law _ _ (toCSV_passes cfg) p A B s hpat hB
 
 /-- `Write.run`, for every construction setting and every initial file system -/
 theorem write_interleave (cfg : WriteCfg) (p : List Bool) (A B : List Item) (fs : FS) (hpat : IsPattern p A B)
@@ -325,12 +326,12 @@ theorem iterateBins_interleave (sb : BinKind → Bool) (p : List Bool) (A B : Li
         (iterateBinsRun sb s A).st, (iterateBinsRun sb s A).err⟩ :=
   interleave_law _ _ (iterateBins_passes sb) p A B s hpat hB
 
-theorem mapBins_interleave (sb : BinKind → Bool) (inner : Item → CellRes) (p : List Bool) (A B : List Item)
+theorem mapBins_interleave (sb : BinKind → Bool) (inner : Item → CellRes) (dc : Bool) (p : List Bool) (A B : List Item)
     (s : σ) (hpat : IsPattern p A B) (hB : ∀ b ∈ B, mapBinsSel sb b = false) :
-    mapBinsRun sb inner s (merge p A B) =
-      ⟨mergeBlocks (mapBinsRun sb inner s A).err.isSome p (mapBinsRun sb inner s A).blocks B,
-        (mapBinsRun sb inner s A).st, (mapBinsRun sb inner s A).err⟩ :=
-  interleave_law _ _ (mapBins_passes sb inner) p A B s hpat hB
+    mapBinsRun sb inner dc s (merge p A B) =
+      ⟨mergeBlocks (mapBinsRun sb inner dc s A).err.isSome p (mapBinsRun sb inner dc s A).blocks B,
+        (mapBinsRun sb inner dc s A).st, (mapBinsRun sb inner dc s A).err⟩ :=
+  interleave_law _ _ (mapBins_passes sb inner dc) p A B s hpat hB
 
 /-- `RunIf.run`, for every selector and every inner sequence (stateful ones included: `σ` is any state the
 inner sequence and the file system may have) -/
@@ -351,7 +352,7 @@ theorem mapGroup_interleave (inner : σ → List Item → Step σ Item) (p : Lis
 /-! ## 3. Element-specific facts -/
 
 /-- `ToCSV` never touches the file system (or any other state), whatever the flow -/
-theorem toCSV_state_untouched (xs : List Item) (s : σ) : (toCSVRun s xs).st = s := by
+theorem toCSV_state_untouched (cfg : CsvCfg) (xs : List Item) (s : σ) : (toCSVRun cfg s xs).st = s := by
   apply loop_state_const
   intro s v
   simp only [toCSVStep]
@@ -380,15 +381,15 @@ theorem iterateBins_state_untouched (sb : BinKind → Bool) (xs : List Item) (s 
   repeat' split
   all_goals rfl
 
-theorem mapBins_state_untouched (sb : BinKind → Bool) (inner : Item → CellRes) (xs : List Item) (s : σ) :
-    (mapBinsRun sb inner s xs).st = s := by
+theorem mapBins_state_untouched (sb : BinKind → Bool) (inner : Item → CellRes) (dc : Bool) (xs : List Item) (s : σ) :
+    (mapBinsRun sb inner dc s xs).st = s := by
   apply loop_state_const
   intro s v
   unfold mapBinsStep
   split
   · split
     · rfl
-    · exact mapBinsRounds_st _ _ _ _ _ _ _ _
+    · exact mapBinsRounds_st _ _ _ _ _ _ _ _ _
   · rfl
 
 /-- `Write`: a value whose data is already the path it would be written to ("already written by another
@@ -425,9 +426,9 @@ theorem same_object_iff_unselected (f : σ → Item → Step σ Item) (sel : Ite
     rw [hp s v hs]
     exact ⟨v, by simp [pass], rfl⟩
 
-theorem toCSV_same_object_iff (s : σ) (v : Item) :
-    (∃ y ∈ (toCSVStep s v).out, y.tok = v.tok) ↔ toCSVSel v = false :=
-  same_object_iff_unselected _ _ toCSV_passes toCSV_selected_fresh s v
+theorem toCSV_same_object_iff (cfg : CsvCfg) (s : σ) (v : Item) :
+    (∃ y ∈ (toCSVStep cfg s v).out, y.tok = v.tok) ↔ toCSVSel v = false :=
+  same_object_iff_unselected _ _ (toCSV_passes cfg) (toCSV_selected_fresh cfg) s v
 
 theorem render_same_object_iff (cfg : RenderCfg) (s : σ) (v : Item) :
     (∃ y ∈ (renderStep cfg s v).out, y.tok = v.tok) ↔ renderSel cfg v = false :=
@@ -445,9 +446,9 @@ theorem iterateBins_same_object_iff (sb : BinKind → Bool) (s : σ) (v : Item) 
     (∃ y ∈ (iterateBinsStep sb s v).out, y.tok = v.tok) ↔ iterateBinsSel sb v = false :=
   same_object_iff_unselected _ _ (iterateBins_passes sb) (iterateBins_selected_fresh sb) s v
 
-theorem mapBins_same_object_iff (sb : BinKind → Bool) (inner : Item → CellRes) (s : σ) (v : Item) :
-    (∃ y ∈ (mapBinsStep sb inner s v).out, y.tok = v.tok) ↔ mapBinsSel sb v = false :=
-  same_object_iff_unselected _ _ (mapBins_passes sb inner) (mapBins_selected_fresh sb inner) s v
+theorem mapBins_same_object_iff (sb : BinKind → Bool) (inner : Item → CellRes) (dc : Bool) (s : σ) (v : Item) :
+    (∃ y ∈ (mapBinsStep sb inner dc s v).out, y.tok = v.tok) ↔ mapBinsSel sb v = false :=
+  same_object_iff_unselected _ _ (mapBins_passes sb inner dc) (mapBins_selected_fresh sb inner dc) s v
 
 theorem mapGroup_same_object_iff (inner : σ → List Item → Step σ Item) (s : σ) (v : Item) :
     (∃ y ∈ (mapGroupStep inner s v).out, y.tok = v.tok) ↔ mapGroupSel v = false :=
@@ -612,10 +613,10 @@ example : merge [true, false, true, false] [exHist, exBad] [exInt, exOff] = [exH
 example : ∀ b ∈ [exInt, exOff], toCSVSel b = false := by decide
 example : toCSVSel exHist = true ∧ toCSVSel exBad = true := by decide
 -- the run: `exHist` is converted (one new value), `exInt` passes, `exBad` raises; `exOff` is never consumed
-example : (toCSVRun () [exHist, exInt, exBad, exOff]).err = some .lenaTypeError := by decide
-example : (toCSVRun () [exHist, exInt, exBad, exOff]).blocks.map (fun b => b.map (·.tok)) =
+example : (toCSVRun ⟨true, false⟩ () [exHist, exInt, exBad, exOff]).err = some .lenaTypeError := by decide
+example : (toCSVRun ⟨true, false⟩ () [exHist, exInt, exBad, exOff]).blocks.map (fun b => b.map (·.tok)) =
     [[.made (.src 2) 0], [.src 0], []] := by decide
-example : (toCSVRun () [exInt, exHist, exOff]).blocks.map (fun b => b.map (·.tok)) =
+example : (toCSVRun ⟨true, false⟩ () [exInt, exHist, exOff]).blocks.map (fun b => b.map (·.tok)) =
     [[.src 0], [.made (.src 2) 0], [.src 6]] := by decide
 -- `mergeBlocks` stops after the failing block
 example : mergeBlocks true [true, false, true, false] [[1], ([] : List Nat)] [8, 9] = [[1], [8], []] := by decide
